@@ -217,17 +217,17 @@ def check(case, ctx):
         o = e['o']
         pdim = o.pdimension
         ops = ['ctrlpts', 'delta', 'sample_size', 'insert', 'refine', 'translate', 'scale', 'rotate', 'knotvector', 'degree', 'deepcopy',
-               'set_ctrlpts']
+               'set_ctrlpts', 'partial-evaluate']
         if o.rational:
             ops += ['weights', 'ctrlptsw', 'weights']
         if pdim == 1:
             ops += ['reverse', 'reverse']
         if pdim == 2:
-            ops += ['transpose', 'flip', 'ctrlpts2d', 'transpose']
+            ops += ['transpose', 'flip', 'ctrlpts2d', 'transpose', 'transpose-method']
         if e['inserted']:
             ops += ['remove', 'remove']
         if cont is not None:
-            ops += ['container-add', 'container-delta', 'container-transform', 'container-deepcopy']
+            ops += ['container-add', 'container-delta', 'container-transform', 'container-deepcopy', 'container-retessellate']
         op = rng.choice(ops)
         S_prev = G.defn_of(o)
         sc = so.scale_of_defn(S_prev)
@@ -324,6 +324,23 @@ def check(case, ctx):
                         return S_prev.point((a,))
                     t = (F(q[0]) - F(a2)) / (F(b2) - F(a2))
                     return S_prev.point((F(b) - t * (F(b) - F(a)),))
+            elif op == 'partial-evaluate':
+                # sample a sub-range, then ask for the plain evaluation again: the sampled points must be those of the whole domain
+                doms_ = G.domains_of(o)
+                sub = [(a + 0.25 * (b - a), a + 0.75 * (b - a)) for a, b in doms_]
+                if pdim == 1:
+                    o.evaluate(start=sub[0][0], stop=sub[0][1])
+                elif pdim == 2:
+                    o.evaluate(start_u=sub[0][0], stop_u=sub[0][1], start_v=sub[1][0], stop_v=sub[1][1])
+                else:
+                    o.evaluate(start_u=sub[0][0], stop_u=sub[0][1], start_v=sub[1][0], stop_v=sub[1][1], start_w=sub[2][0], stop_w=sub[2][1])
+                o.evaluate()
+                desc = 'delta'
+            elif op == 'transpose-method':
+                o.transpose()
+                e['inserted'] = []
+                shadow = lambda q: S_prev.point((q[1], q[0]))
+                desc = 'transpose'
             elif op == 'transpose':
                 operations.transpose(o, inplace=True)
                 e['inserted'] = []
@@ -434,6 +451,25 @@ def check(case, ctx):
                         return
                     ctx.ok('fresh-compare')
                     ctx.ok('container-read')
+                mutators += 1
+                continue
+            elif op == 'container-retessellate':
+                if cont.pdimension != 2:
+                    continue
+                cont.vertices
+                cont.tessellate(force=True)
+                fc = fresh_container()
+                live = [[(v.id, list(v.uv), list(v.data)) for v in cont.vertices], [list(f.data) for f in cont.faces]]
+                exp = [[(v.id, list(v.uv), list(v.data)) for v in fc.vertices], [list(f.data) for f in fc.faces]]
+                if not near(live, exp):
+                    if cont_dirty_by_element and len(live[0]) == len(exp[0]):
+                        pass    # (positions may lag an element edit: that is the recorded container-cache mechanism, judged in read_container)
+                    else:
+                        ctx.fail('stale/container-mesh-after-forced-tessellate', 'tessellate(force=True) on a container whose mesh had been '
+                                 'read leaves %d vertices / %d faces, a fresh container has %d / %d' % (len(live[0]), len(live[1]), len(exp[0]), len(exp[1])))
+                        return
+                ctx.ok('container-read')
+                cont_dirty_by_element = False
                 mutators += 1
                 continue
             elif op == 'container-delta':
